@@ -15,7 +15,8 @@
     Oracles: [choose] (numpy.random.choice) and the index lists [idx] (random.choices) are universally quantified. *)
 From Coq Require Import String Ascii ZArith NArith Reals List Lra Lia Bool Arith Permutation.
 From Dadi Require Import Base.Num Base.NumR Model.Projection Model.Fold Model.DataDict Model.Stats
-  Proofs.ProjH Proofs.DataDictSpec Proofs.DataDictChunks Proofs.DataDictSub Proofs.DataDictFrag Proofs.StatsProofs Proofs.StatsBridge.
+  Proofs.ProjH Proofs.DataDictSpec Proofs.DataDictChunks Proofs.DataDictSub Proofs.DataDictFrag Proofs.StatsProofs Proofs.StatsBridge
+  Proofs.StatsThetaL Proofs.DataDictWindows Proofs.DataDictVcfSpec.
 Import ListNotations.
 Local Open Scope R_scope.
 
@@ -189,6 +190,134 @@ Theorem C13_full_call_spectrum_is_histogram : forall (dd : dict snp) pop_ids ns 
   Forall (row_ok ns) (rows_of pop_ids polarized (map snd dd)).
 Proof. exact full_call_spectrum_is_histogram. Qed.
 Print Assumptions C13_full_call_spectrum_is_histogram.
+
+(** theta_L (numpy.sum(numpy.arange(1,n)*self[1:n])/(n-1)) of the spectrum of a fully called count matrix = the same
+    statistic SNP by SNP: a segregating SNP with k derived alleles among n contributes k/(n-1) *)
+Theorem C13_thetaL_from_sfs_matches_direct : forall n rows, Forall (row_ok [n]) rows ->
+  stat_thetaL (F:=R) n (sfs_of_rows [n] rows) (corner_mask [n]) = direct_thetaL n rows.
+Proof. exact thetaL_from_sfs_matches_direct. Qed.
+Print Assumptions C13_thetaL_from_sfs_matches_direct.
+
+Theorem C13_thetaL_per_snp : forall n rows, (2 <= n)%nat -> Forall (row_ok [n]) rows ->
+  stat_thetaL (F:=R) n (sfs_of_rows [n] rows) (corner_mask [n])
+  = lsum (fun row => if segregating [n] row then INR (hd 0%nat row) / (INR n - 1) else 0) rows.
+Proof. exact thetaL_from_sfs_per_snp. Qed.
+
+(** chunk windows.  win cs p = (p - 1) / cs (natural-number subtraction) is the number of the window of position p:
+    window j is the interval j*cs < p <= (j+1)*cs (window 0 also holds position 0); the windows are disjoint and cover *)
+Theorem C13_chunk_window_intervals : forall cs p j, (0 < cs)%N ->
+  win cs p = j <-> ((j * cs < p /\ p <= (j + 1) * cs) \/ (p = 0 /\ j = 0))%N.
+Proof. exact win_spec. Qed.
+
+(** the chunking loop of one chromosome (positions sorted as sorted() leaves them): the chunks are the windows
+    0 .. win cs (largest position), chunk j holding exactly the positions of window j, nothing lost *)
+Theorem C13_chunk_loop_windows : forall cs (srt : list (N * option string)), (0 < cs)%N -> sortedP srt ->
+  let chunks := chunk_loop cs srt [] [] cs in
+  length chunks = S (N.to_nat (win cs (fst (last srt (0%N, None))))) /\
+  concat chunks = srt /\
+  forall j, (j < length chunks)%nat -> nth j chunks [] = filter (fun x => (win cs (fst x) =? N.of_nat j)%N) srt.
+Proof. exact chunk_windows. Qed.
+
+Theorem C13_sorted_positions_are_sorted : forall l acc l', sortedP acc -> sort_positions l acc = Some l' -> sortedP l'.
+Proof. exact sort_positions_sorted. Qed.
+
+(** fragment_data_dict: one chunk per chromosome (order of first appearance, names distinct) and window number
+    (0 .. window of the largest position; chunk_tags lists them in the order of the result); the positions of a
+    chromosome are those parsed from the keys; the chunk of (chromosome, window j) is built from exactly the positions of
+    the chromosome lying in window j, so every SNP of a chunk lies in the chunk's chromosome and window *)
+Theorem C13_chunk_window_characterisation : forall (dd : dict snp) cs frags,
+  fragment_data_dict dd cs = Some frags ->
+  (0 < cs)%N /\
+  exists chroms : list (string * list (N * option string)),
+    NoDup (map fst chroms) /\
+    (forall key chr p a, In key (map fst dd) -> parse_key key = Some (chr, p, a) -> In chr (map fst chroms)) /\
+    Forall (fun c => sortedP (snd c) /\
+                     forall p a, In (p, a) (snd c) <-> exists key, In key (map fst dd) /\ parse_key key = Some (fst c, p, a)) chroms /\
+    Forall2 (fun tag frag =>
+               chunk_dict dd (fst (fst tag)) (filter (fun x => (win cs (fst x) =? snd tag)%N) (snd (fst tag))) [] = Some frag)
+            (chunk_tags cs chroms) frags /\
+    Forall2 (fun tag frag => forall k s, In (k, s) frag ->
+               exists p a, In (p, a) (snd (fst tag)) /\ k = format_key (fst (fst tag)) p a /\
+                           win cs p = snd tag /\ dget k dd = Some s)
+            (chunk_tags cs chroms) frags.
+Proof. exact chunk_window_characterisation. Qed.
+Print Assumptions C13_chunk_window_characterisation.
+
+(** ... and conversely (canonical, distinct keys) the SNP with key chrom_pos[.info] is in the chunk of chromosome chrom
+    and window (pos - 1) / chunk_size *)
+Theorem C13_snp_lands_in_its_window : forall (dd : dict snp) cs frags,
+  NoDup (map fst dd) -> Forall canonical_key (map fst dd) ->
+  fragment_data_dict dd cs = Some frags ->
+  exists chroms : list (string * list (N * option string)),
+    NoDup (map fst chroms) /\ length (chunk_tags cs chroms) = length frags /\
+    forall k s chr p a, In (k, s) dd -> parse_key k = Some (chr, p, a) ->
+      exists c i frag, In c chroms /\ fst c = chr /\ In (p, a) (snd c) /\
+        nth_error (chunk_tags cs chroms) i = Some (c, win cs p) /\
+        nth_error frags i = Some frag /\ In (k, s) frag.
+Proof. exact snp_lands_in_its_window. Qed.
+Print Assumptions C13_snp_lands_in_its_window.
+
+(** one tokenised VCF data line without subsampling (cols = line.split("\t")).
+      line_passes cfg REF ALT FILTER  = (not filter or FILTER in (PASS, .)) and REF, ALT single bases after upper-casing
+      assigned q ps                   = the sample columns of the individuals assigned to population q
+      sample_counts gt ad dp sample   = (0,0) when AD = '0,0' or DP = '0' flag the sample, else (number of '0' alleles,
+                                        number of '1' alleles) of its GT sub-field (alleles = even positions of the string;
+                                        a missing allele '.' counts for neither), None when there is no GT sub-field
+      sum_counts                      = componentwise sum of sample_counts over a list of samples *)
+Theorem C13_vcf_line_counts_spec : forall choose cfg poplist cols c c3 c4 c6 c7 c8,
+  cfg_sub cfg = None ->
+  nth_error cols 3 = Some c3 -> nth_error cols 4 = Some c4 -> nth_error cols 6 = Some c6 ->
+  nth_error cols 7 = Some c7 -> nth_error cols 8 = Some c8 ->
+  let ps := combine poplist (skipn 9 cols) in
+  let fmt := split ":" c8 in
+  (line_passes cfg c3 c4 c6 = false -> vcf_line choose cfg poplist cols c = (LSkip, c)) /\
+  (line_passes cfg c3 c4 c6 = true ->
+     (index_of "GT" fmt = None -> vcf_line choose cfg poplist cols c = (LErr, c)) /\
+     forall gtindex, index_of "GT" fmt = Some gtindex ->
+       let covindex := index_of "AD" fmt in let dpindex := index_of "DP" fmt in
+       (forall calls, calls_loop gtindex covindex dpindex ps [] = Some calls ->
+          vcf_line choose cfg poplist cols c = (LSnp (join "_" (firstn 2 cols)) (line_record c3 c4 c7 calls), c) /\
+          (forall q, dget q calls = match assigned q ps with
+                                    | [] => None
+                                    | l => Some (sum_counts gtindex covindex dpindex l)
+                                    end) /\
+          Forall (fun p => fst p <> None -> sample_counts gtindex covindex dpindex (snd p) <> None) ps) /\
+       (calls_loop gtindex covindex dpindex ps [] = None ->
+          vcf_line choose cfg poplist cols c = (LErr, c) /\
+          exists pop sample, In (Some pop, sample) ps /\ sample_counts gtindex covindex dpindex sample = None)).
+Proof. exact vcf_line_counts_spec. Qed.
+Print Assumptions C13_vcf_line_counts_spec.
+
+(** only lines that pass the filters give a record; a skipped line leaves the dictionary unchanged *)
+Theorem C13_vcf_record_only_from_passing_line : forall choose cfg poplist cols c key s c',
+  vcf_line choose cfg poplist cols c = (LSnp key s, c') ->
+  exists c3 c4 c6 c7 c8,
+    nth_error cols 3 = Some c3 /\ nth_error cols 4 = Some c4 /\ nth_error cols 6 = Some c6 /\
+    nth_error cols 7 = Some c7 /\ nth_error cols 8 = Some c8 /\
+    line_passes cfg c3 c4 c6 = true /\ key = join "_" (firstn 2 cols) /\
+    s_seg s = [upper c3; upper c4] /\ s_out s = Some (ancestral (split ";" c7)).
+Proof. exact vcf_line_record_passed. Qed.
+
+Theorem C13_vcf_skipped_line_contributes_nothing : forall choose cfg popinfo cols r poplist dd c c',
+  starts_with "#" (hd EmptyString cols) = false ->
+  vcf_line choose cfg poplist cols c = (LSkip, c') ->
+  vcf_loop choose cfg popinfo (cols :: r) (Some poplist) dd c = vcf_loop choose cfg popinfo r (Some poplist) dd c'.
+Proof. exact vcf_loop_skip. Qed.
+
+(** genotype strings: a/b or a|b counts its two allele characters, a missing allele counts for neither *)
+Theorem C13_gt_counts_diploid : forall a sep b,
+  let gt := String a (String sep (String b EmptyString)) in
+  gt_ref gt = (is0 a + is0 b)%nat /\ gt_alt gt = (is1 a + is1 b)%nat.
+Proof. exact gt_counts_diploid. Qed.
+Theorem C13_gt_missing_allele_not_counted : is0 "."%char = 0%nat /\ is1 "."%char = 0%nat.
+Proof. exact missing_allele_not_counted. Qed.
+
+(** INFO column: the first AA= / AA_ensembl= / AA_chimp= field decides; none: '-' *)
+Theorem C13_ancestral_allele_first_field : forall pre f post, Forall (fun x => aa_field x = false) pre -> aa_field f = true ->
+  ancestral (pre ++ f :: post) = aa_value f.
+Proof. exact ancestral_first. Qed.
+Theorem C13_ancestral_allele_absent : forall info, Forall (fun x => aa_field x = false) info -> ancestral info = "-"%string.
+Proof. exact ancestral_none. Qed.
 
 (** non-vacuity: a two-SNP dictionary for one population (6 and 3 calls), projected to 4 chromosomes:
     count_data_dict succeeds, only the first SNP has enough calls, the total is 1 *)
